@@ -342,7 +342,7 @@ def eval_case(ctx, T, r, plain, ops, backends, found_classes, sample=False, raws
         hout = ho[h0:h0 + hn]
         dout = do[d0:d0 + dn]
         ctx.count(("fp", sha(plain), tuple(ops), name, mb), nontrivial=len(plain) > 2 * PAGE and len(ops) >= 10)
-        ctx.hist("fp.backend", name.split("+")[0].split(":")[0])
+        ctx.hist("fp.backend", name.split(":")[0] if ":" in name else name.split("+shim")[0])
         ctx.hist("fp.min_buffer", mb)
         ctx.hist("fp.size", min(len(plain) // 8192 * 8192, 262144))
         ctx.hist("fp.shim", sm[0])
@@ -519,7 +519,9 @@ def tok_cases(ctx, T, r, n):
     lines = []
     exp = []
     for _ in range(n):
-        s = bytes(r.choice(b"ab \t\n,\x00") for _ in range(r.choice([0, 1, 2, 5, 12, 40])))
+        s = bytes(r.choice(b"ab \t\n,\x00") for _ in range(r.choice([0, 1, 2, 5, 12, 40, 41, 64, 100, 300, r.randint(0, 2000)])))
+        if r.random() < 0.2:
+            s = gen_data(r)[:r.choice([50, 500, 5000])]
         st = r.choice(SETS)
         skip = r.randint(0, 1)
         lines.append("tok %s %d %s" % (st, skip, s.hex()))
